@@ -119,6 +119,14 @@ func init() {
 		},
 		"runtime/debug.Stack": func(ex *Exec, fr *frame, a []value) value { return []value(nil) },
 
+		// --- FIPS service indicator hooks (linknamed runtime functions) ---
+		"crypto/internal/fips140.RecordApproved":    nop,
+		"crypto/internal/fips140.RecordNonApproved": nop,
+		"crypto/internal/fips140.setIndicator":      nop,
+		"crypto/internal/fips140.getIndicator":      func(ex *Exec, fr *frame, a []value) value { return ex.C.Const(8, 0) },
+		"crypto/internal/fips140.ResetServiceIndicator": nop,
+		"crypto/internal/fips140only.Enabled":       func(ex *Exec, fr *frame, a []value) value { return ex.C.Bool(false) },
+
 		// --- time ---
 		"time.Now": func(ex *Exec, fr *frame, a []value) value {
 			// wall=0, ext=fakeTime ns since year 1, loc=nil (UTC)
